@@ -266,9 +266,10 @@ def loop_forms(ctx):
         items = [(nm, f"Lbl {nm}") for nm in names]
         logic = {}
         for c in rng.sample(["constraint", "relevant", "required", "read_only", "calculation"], rng.randint(1, 3)):
-            logic[c] = rng.choice(["'%(name)s' != '' and ${avail} != 'x'", "selected(${avail}, '%(name)s')", "string-length('%(label)s') > 1", "'%(name)s.%(name)s' = 'q'"])
+            logic[c] = rng.choice(["'%(name)s' != '' and ${avail} != 'x'", "selected(${avail}, '%(name)s')", "string-length('%(label)s') > 1", "'%(name)s.%(name)s' = 'q'",
+                                   "contains('%(name)s', '%') or . < 100"])  # a percent sign that is not a placeholder is ordinary text
         if "constraint" in logic and rng.random() < 0.6:
-            logic["constraint_message"] = rng.choice(["Too many %(label)s", "bad %(name)s"])
+            logic["constraint_message"] = rng.choice(["Too many %(label)s", "bad %(name)s", "At most 100% of %(label)s", "%(name)s: 5 % 2"])
         rows = ["| | select_multiple toilets | avail | Which | | | | | | |", "| | begin loop over toilets | lp | Loop | | | | | | |"]
         cols = ["constraint", "relevant", "required", "read_only", "calculation", "constraint_message"]
         rows.append("| | integer | number | How many %(label)s | " + " | ".join(logic.get(c, "") for c in cols) + " |")
